@@ -409,6 +409,40 @@ func c19One(ws *pipe.Workspace, l c19Layout, st *mc.Stats) []mc.Violation {
 			}
 		}
 	}
+	// Edit and regenerate: each neighbour of the layout (two adjacent items
+	// exchanged, which renumbers the constants) generated over this layout's
+	// output, in the same directory, must give what a fresh directory gives.
+	if len(out) == 0 && l.Split < 0 {
+		items := []byte(l.Items)
+		for i := 0; i+1 < len(items); i++ {
+			if items[i] == items[i+1] {
+				continue
+			}
+			sw := append([]byte(nil), items...)
+			sw[i], sw[i+1] = sw[i+1], sw[i]
+			l2 := c19Layout{Items: string(sw), Split: -1}
+			sp2 := l2.build()
+			if sp2 == nil {
+				continue
+			}
+			spec1 := &pipe.Spec{Lox: sp.files, Go: map[string]string{"user.go": c19UserGo(sp.g)}}
+			spec2 := &pipe.Spec{Lox: sp2.files, Go: map[string]string{"user.go": c19UserGo(sp2.g)}}
+			fresh := ws.RunFast(spec2, nil)
+			if !fresh.OK {
+				continue
+			}
+			fb, fl, fp := fresh.Base, fresh.Lexer, fresh.Parser
+			_, over := ws.RunFastOver(spec1, spec2, nil)
+			st.Evaluations++
+			st.Add("regenerated_over_neighbour", 1)
+			for _, f := range [][3]string{{"base.gen.go", fb, over.Base}, {"lexer.gen.go", fl, over.Lexer}, {"parser.gen.go", fp, over.Parser}} {
+				if f[1] != f[2] {
+					bad("stale-after-regeneration", fmt.Sprintf("after generating this layout, the specification was edited to layout %q and regenerated in the same directory: %s is not what a fresh directory gets (%s); the constants, the lexer tables and the parser tables no longer describe one specification", l2.Items, f[0], pipe.FirstDiff(f[2], f[1])))
+					break
+				}
+			}
+		}
+	}
 	return out
 }
 
@@ -593,7 +627,7 @@ func init() {
 		ID:    "C19",
 		Level: "exploration",
 		Rule: "layouts: every sequence of up to 4 (quick) / 5 (thorough) declaration items from {default-mode token, mode with 0/1/2 tokens, @external with 1/2 names, fragment that @emit()s an earlier token}, at most two modes, each also split into two files at every position (short layouts); the parser references the first, last and a middle name, the rest stay unreferenced; " +
-			"read back: const block (names, values dense from EOF=0, ERROR=1, textual order over files in name order), _TokenToString evaluated on its AST, accept parameter of every rule in the decoded mode tables, keys of the decoded parser tables against the reference automaton, and a sentence written with the expected constants run on the real runtime; non-trivial = layout with >= 3 names",
+			"read back: const block (names, values dense from EOF=0, ERROR=1, textual order over files in name order), _TokenToString evaluated on its AST, accept parameter of every rule in the decoded mode tables, keys of the decoded parser tables against the reference automaton, and a sentence written with the expected constants run on the real runtime; edit-and-regenerate: every neighbour (two adjacent items exchanged) generated over the layout's own output in the same directory equals a fresh generation; non-trivial = layout with >= 3 names",
 		Assume: []string{"expected numbering is computed by the harness from the text it printed", "_TokenToString is evaluated on its AST here; compiled use is exercised by the checked-in parsers (C14) and stage-3 checks"},
 		Worker: c19Worker,
 		Replay: c19Replay,
